@@ -19,7 +19,9 @@ import (
 	"encoding/json"
 	"fmt"
 	"math/rand"
+	"sort"
 	"sync"
+	"time"
 
 	"github.com/attestantio/go-eth2-client/spec/phase0"
 	specqbft "github.com/bloxapp/ssv-spec/qbft"
@@ -894,4 +896,20 @@ func (c *Cluster) Inject(from spectypes.OperatorID, m *spectypes.SSVMessage, tag
 			c.Pool = append(c.Pool, &Flight{Msg: m, To: d.ID, From: from, Tag: tag})
 		}
 	}
+}
+
+// TimeOf maps a virtual tick to a point in time inside a slot of the beacon network (1 ms per tick after the slot's
+// start): for monitors that need a receivedAt for a recorded broadcast (message validation).
+func TimeOf(slot phase0.Slot, tick int64) time.Time {
+	return time.Unix(BeaconNet.EstimatedTimeAtSlot(slot), 0).Add(time.Duration(tick) * time.Millisecond)
+}
+
+// AllBroadcasts returns every broadcast of every built operator ordered by virtual time of emission.
+func (c *Cluster) AllBroadcasts() []*BroadcastEvent {
+	var out []*BroadcastEvent
+	for _, op := range c.Honest() {
+		out = append(out, op.Broadcasts...)
+	}
+	sort.Slice(out, func(i, j int) bool { return out[i].Tick < out[j].Tick })
+	return out
 }
